@@ -3,7 +3,7 @@
 //! extracted model. Property oracles are evaluated on the implementation's own before/after snapshots.
 //!
 //! cases.txt: `<id> T=<content>:<digest hex>;.. HOST=<hex> A=<tree> B=<tree> OPS=<op>,..`
-//!   op = `WA:<phex>:<chex>` | `WB:..` | `MA:..` | `MB:..` (a write that takes the opposite side's exact mtime) | `DA:<phex>` | `DB:<phex>` | `R` | `F`
+//!   op = `X<k>` (a run whose k-th mutating call fails with EIO) | `WA:<phex>:<chex>` | `WB:..` | `MA:..` | `MB:..` (a write that takes the opposite side's exact mtime) | `DA:<phex>` | `DB:<phex>` | `R` | `F`
 //! impl.txt:  `<id> <state>|<state>|..`   state = `A=<tree>;B=<tree>;Z=<arch|none>;X=<OK|CONFLICTS|IOERR|->;P=<plan|->`
 use crate::hubctl::snapshot;
 use crate::util::*;
@@ -32,6 +32,9 @@ pub enum Op {
     Delete(bool, String),
     Run,
     Fault(u8),
+    /// a run in which the k-th mutating file-system call fails with EIO (a survivable I/O fault; shim VPSCHED_FAIL_AT).
+    /// Histories containing it are checked by the oracles only (the model has no I/O faults).
+    RunFault(u32),
 }
 
 pub struct Env {
@@ -40,12 +43,14 @@ pub struct Env {
     pub a: String,
     pub b: String,
     pub home: String,
+    /// LD_PRELOAD shim for fault-injected runs (None: X ops run like plain runs)
+    pub shim: Option<String>,
 }
 
 impl Env {
     pub fn new(copia: &str, dir: &str) -> Env {
         let _ = std::fs::remove_dir_all(dir);
-        let e = Env { copia: copia.into(), dir: dir.into(), a: format!("{}/A", dir), b: format!("{}/B", dir), home: format!("{}/home", dir) };
+        let e = Env { copia: copia.into(), dir: dir.into(), a: format!("{}/A", dir), b: format!("{}/B", dir), home: format!("{}/home", dir), shim: None };
         for d in [&e.a, &e.b, &e.home] {
             std::fs::create_dir_all(d).unwrap();
         }
@@ -125,6 +130,7 @@ fn parse_plan(dry_stdout: &str) -> String {
 }
 
 pub struct HistResult {
+    pub oracle_only: bool,
     pub case_line: String,
     pub impl_line: String,
     pub fails: Vec<String>,
@@ -179,6 +185,7 @@ pub fn run_history(id: usize, env: &Env, init_a: &Tree, init_b: &Tree, ops: &[Op
     let mut runs = 0;
     let mut nconf = 0;
     let mut fault_pending = false;
+    let mut oracle_only = false;
     // what both sides held at the end of the previous COMPLETED run (ground truth, independent of the archive file)
     let mut prev_end: Option<(Tree, Tree)> = None;
     for op in ops {
@@ -211,9 +218,13 @@ pub fn run_history(id: usize, env: &Env, init_a: &Tree, init_b: &Tree, ops: &[Op
                     }
                 }
             }
-            Op::Run => {
+            Op::Run | Op::RunFault(_) => {
                 runs += 1;
-                op_strs.push("R".into());
+                let faultk = if let Op::RunFault(k) = op { Some(*k) } else { None };
+                match faultk {
+                    Some(k) => { op_strs.push(format!("X{}", k)); oracle_only = true; }
+                    None => op_strs.push("R".into()),
+                }
                 let before_a = read_tree(&env.a);
                 let before_b = read_tree(&env.b);
                 let _before_z = env.archive_entries();
@@ -230,7 +241,12 @@ pub fn run_history(id: usize, env: &Env, init_a: &Tree, init_b: &Tree, ops: &[Op
                 if nobase && (plan.contains("DeleteA:") || plan.contains("DeleteB:")) {
                     fails.push(format!("{} C07 a delete was planned without a trusted archive: {}", id, plan));
                 }
-                let (code, out, _err) = env.bisync(&[], &env.a, &env.b, &[]);
+                let ks = faultk.map(|k| k.to_string()).unwrap_or_default();
+                let fenv: Vec<(&str, &str)> = match (faultk, env.shim.as_deref()) {
+                    (Some(_), Some(sh)) => vec![("LD_PRELOAD", sh), ("VPSCHED_ONLY", "copia"), ("VPSCHED_WATCH", env.dir.as_str()), ("VPSCHED_FAIL_AT", ks.as_str())],
+                    _ => vec![],
+                };
+                let (code, out, _err) = env.bisync(&[], &env.a, &env.b, &fenv);
                 let complete = out.contains("Bidirectional sync complete");
                 exit = match (code, complete) {
                     (Some(0), _) => "OK".into(),
@@ -279,6 +295,25 @@ pub fn run_history(id: usize, env: &Env, init_a: &Tree, init_b: &Tree, ops: &[Op
                         }
                     }
                     prev_end = Some((after_a.clone(), after_b.clone()));
+                } else if exit == "IOERR" && faultk.is_some() {
+                    // a run stopped by the injected fault is not a completed run: nothing may have been lost by it
+                    for (side_a, before, other) in [(true, &before_a, &before_b), (false, &before_b, &before_a)] {
+                        for (p, c) in before {
+                            if p.ends_with(".copia-tmp") { continue; }
+                            let still = after_a.values().any(|x| x == c) || after_b.values().any(|x| x == c);
+                            let base_version = prev_end.as_ref().map(|(ea, eb)| ea.get(p) == Some(c) && eb.get(p) == Some(c)).unwrap_or(false);
+                            let superseded = !nobase && base_version && other.get(p) != Some(c);
+                            if !still && !superseded {
+                                fails.push(format!("{} C02 version lost by a run that stopped on an I/O error: side {} path {:?} content {}", id, if side_a { "A" } else { "B" }, p, hex(c)));
+                            }
+                        }
+                    }
+                    // staging leftovers of the failed run carry the reserved suffix: outside the domain
+                    for root in [&env.a, &env.b] {
+                        for (p, _) in read_tree(root) {
+                            if p.ends_with(".copia-tmp") { let _ = std::fs::remove_file(format!("{}/{}", root, p)); }
+                        }
+                    }
                 } else if exit == "SIGNAL" || (exit == "IOERR" && !stage(&before_a) && !stage(&before_b)) {
                     fails.push(format!("{} C06 run did not complete: {}", id, exit));
                 }
@@ -303,7 +338,7 @@ pub fn run_history(id: usize, env: &Env, init_a: &Tree, init_b: &Tree, ops: &[Op
             match op {
                 Op::Write(side, p, c, pm) => write_file2(if *side { &env2.b } else { &env2.a }, Some(if *side { &env2.a } else { &env2.b }), p, c, r, *pm),
                 Op::Delete(side, p) => { let _ = std::fs::remove_file(format!("{}/{}", if *side { &env2.b } else { &env2.a }, p)); }
-                Op::Run => { let _ = env2.bisync(&[], &env2.a, &env2.b, &[]); }
+                Op::Run | Op::RunFault(_) => { let _ = env2.bisync(&[], &env2.a, &env2.b, &[]); }
                 Op::Fault(_) => { if let Some(f) = env2.archive_main() { let _ = std::fs::remove_file(f); } }
             }
         }
@@ -315,7 +350,7 @@ pub fn run_history(id: usize, env: &Env, init_a: &Tree, init_b: &Tree, ops: &[Op
     let t = contents.iter().map(|c| format!("{}:{}", hex(c), hex(&h32(c)))).collect::<Vec<_>>().join(";");
     let case_line = format!("{} T={} HOST={} A={} B={} OPS={}", id, t, hex(b"vphost"), case_tree(init_a), case_tree(init_b), if op_strs.is_empty() { "-".into() } else { op_strs.join(",") });
     let impl_line = format!("{} {}", id, if states.is_empty() { "-".into() } else { states.join("|") });
-    HistResult { case_line, impl_line, fails, runs, conflicts: nconf }
+    HistResult { oracle_only, case_line, impl_line, fails, runs, conflicts: nconf }
 }
 
 
@@ -435,6 +470,7 @@ pub fn parse_case(line: &str) -> (Tree, Tree, Vec<Op>) {
                         "DA" => ops.push(Op::Delete(true, s(f[1]))),
                         "DB" => ops.push(Op::Delete(false, s(f[1]))),
                         "R" => ops.push(Op::Run),
+                        x if x.starts_with('X') && x[1..].parse::<u32>().is_ok() => ops.push(Op::RunFault(x[1..].parse().unwrap())),
                         _ => ops.push(Op::Fault(0)),
                     }
                 }
@@ -497,6 +533,17 @@ fn gen_history(r: &mut Rng, pool: &[Vec<u8>], paths: &[&str]) -> (Tree, Tree, Ve
             ops = vec![Op::Write(true, p.clone(), pool[1].clone(), false), Op::Run, Op::Write(side, p.clone(), pool[2].clone(), true), Op::Run, Op::Run,
                        Op::Write(!side, p.clone(), pool[1].clone(), true), Op::Run, Op::Run];
         }
+        5 => {
+            // a completed run, an edit, a run stopped by an I/O fault at a random call, then plain runs: what the failed run
+            // recorded (if anything) must not make a later run lose the edit
+            class = "directed:io-fault-then-rerun";
+            let p = paths[1].to_string();
+            let side = r.chance(1, 2);
+            a.remove(&p);
+            b.remove(&p);
+            ops = vec![Op::Write(true, p.clone(), pool[1].clone(), false), Op::Run, Op::Write(side, p.clone(), pool[3].clone(), false),
+                       Op::RunFault(1 + r.below(10) as u32), Op::Run, Op::Run];
+        }
         2 => {
             class = "directed:fault-first";
             ops.push(Op::Run);
@@ -513,7 +560,7 @@ fn gen_history(r: &mut Rng, pool: &[Vec<u8>], paths: &[&str]) -> (Tree, Tree, Ve
             let n = 3 + r.below(10);
             for _ in 0..n {
                 match r.below(10) {
-                    0..=3 => ops.push(Op::Run),
+                    0..=3 => { if r.chance(1, 12) { ops.push(Op::RunFault(1 + r.below(14) as u32)) } else { ops.push(Op::Run) } }
                     4..=6 => { let pm = r.chance(1, 3); ops.push(Op::Write(r.chance(1, 2), r.pick(paths).to_string(), r.pick(pool).clone(), pm)) }
                     7 | 8 => ops.push(Op::Delete(r.chance(1, 2), r.pick(paths).to_string())),
                     _ => ops.push(Op::Fault(r.below(8) as u8)),
@@ -529,7 +576,8 @@ pub fn main(a: Args) -> i32 {
     let mut out = Out::new(&a.out);
     let copia = a.rest.iter().position(|x| x == "--copia").map(|i| a.rest[i + 1].clone()).expect("--copia");
     let absout = std::fs::canonicalize(&a.out).unwrap().to_string_lossy().into_owned();
-    let env = Env::new(&copia, &format!("{}/bi", absout));
+    let mut env = Env::new(&copia, &format!("{}/bi", absout));
+    env.shim = a.rest.iter().position(|x| x == "--shim").map(|i| a.rest[i + 1].clone());
     let mut r = Rng::new(a.seed ^ 0xC02);
     let pool: Vec<Vec<u8>> = vec![b"".to_vec(), b"one".to_vec(), b"two".to_vec(), b"three".to_vec(), vec![0x41; if a.tier == "thorough" { 70000 } else { 40 }]];
     let paths = ["f", "g", "d/h", "d/k"];
@@ -551,8 +599,13 @@ pub fn main(a: Args) -> i32 {
     }
     for (id, (ia, ib, ops, class)) in hists.iter().enumerate() {
         let res = run_history(id, &env, ia, ib, ops, &mut r, id % 4 == 0);
-        out.line("cases.txt", &res.case_line);
-        out.line("impl.txt", &res.impl_line);
+        if res.oracle_only {
+            out.line("cases-oracle.txt", &res.case_line);
+            out.count("oracle_only_histories");
+        } else {
+            out.line("cases.txt", &res.case_line);
+            out.line("impl.txt", &res.impl_line);
+        }
         out.count("histories");
         out.count(&format!("class_{}", class));
         out.add("operations", ops.len() as u64);
